@@ -42,9 +42,9 @@ def run(ctx: Ctx):
             tvar = n.targets[0].id
     if tvar is None:
         raise AnalysisError("the OCD loss does not bind the optimal-completion targets to a variable")
-    masks = [n for n in own_nodes(f.node) if isinstance(n, ast.Assign) and isinstance(n.value, ast.Compare)
-             and u(n.value.left) == tvar and isinstance(n.value.ops[0], ast.Eq)]
-    okm = len(masks) == 1 and u(masks[0].value.comparators[0]) == "ignore_index"
+    from sa.astutil import oriented
+    masks = [n for n in own_nodes(f.node) if isinstance(n, ast.Assign) and (oriented(n.value, lambda e: u(e) == tvar) or (None,))[0] == "eq"]
+    okm = len(masks) == 1 and u(oriented(masks[0].value, lambda e: u(e) == tvar)[2]) == "ignore_index"
     col.ob("G13", "S2", f"{where}::one-padding-sentinel", okce and okm and got.get("padding") == "ignore_index",
            f"the target padding ({got.get('padding')}), the cross-entropy ignore_index and the padding mask constant "
            f"({u(masks[0].value) if masks else None}) are not the same value: padded target slots would be scored", rel,
